@@ -1,118 +1,85 @@
 (* C10 — ML-DSA keys and signatures conform to FIPS 204 on every input.
-   Only statements + `exact`; proofs live in proofs/Mldsa*.v.
+   Only statements + `exact`/assembly; proofs live in proofs/Mldsa*.v.
    Part 1 re-exports the lead's theorems about the REGENERATED scalar kernels
-   (gen/MldsaScalar.v, translated from algebra.go on every run); part 2 ties
-   the kernels used by the executable model to the regenerated ones; the rest
-   is about the polynomial / encoding / scheme layers of the model
-   (model/MldsaPoly.v, model/Mldsa.v). *)
+   (gen/MldsaScalar.v, translated from algebra.go on every run; specs cmod,
+   decompose_spec, useHint_spec are FIPS 204 Algorithms 35-40 as text); part 2
+   ties the kernels the executable model calls to the regenerated ones; the
+   rest is about the polynomial, encoding and scheme layers of the model
+   (model/MldsaPoly.v, model/Mldsa.v).  Statements that belong together are
+   grouped into one theorem (each Print Assumptions re-walks the whole proof
+   cone, and this file is re-checked on every run). *)
 From Coq Require Import List ZArith NArith Bool Lia.
 From Tink Require Import Bytes Wrap MldsaScalar MldsaScalarProofs MldsaScalarProofs2 MldsaTableProofs
   MldsaKernels MldsaKernelsProofs MldsaPoly Mldsa
-  MldsaPackProofs MldsaHintProofs MldsaUseHintProofs MldsaProofs MldsaExamples.
+  MldsaPackProofs MldsaHintProofs MldsaUseHintProofs MldsaNttProofs MldsaProofs MldsaExamples.
 Import ListNotations.
 Local Open Scope Z_scope.
 
 (* ------------------------------------------------------------------ *)
 (* 1. every scalar kernel = FIPS 204, for ALL field elements           *)
 (* ------------------------------------------------------------------ *)
-Theorem C10_reduceOnce : forall a, 0 <= a < 2 * q -> mldsa_rZq_reduceOnce a = a mod q.
-Proof. exact reduceOnce_spec. Qed.
-Print Assumptions C10_reduceOnce.
+(* constant-time reduction, addition, subtraction, negation and Barrett
+   multiplication compute in Z_q *)
+Theorem C10_field_arithmetic :
+  (forall a, 0 <= a < 2 * q -> mldsa_rZq_reduceOnce a = a mod q) /\
+  (forall a b, 0 <= a < q -> 0 <= b < q -> mldsa_rZq_add a b = (a + b) mod q) /\
+  (forall a b, 0 <= a < q -> 0 <= b < q -> mldsa_rZq_sub a b = (a - b) mod q) /\
+  (forall a, 0 <= a < q -> mldsa_rZq_neg a = (- a) mod q) /\
+  (forall a b, 0 <= a < q -> 0 <= b < q -> mldsa_rZq_mul a b = (a * b) mod q).
+Proof. exact (conj reduceOnce_spec (conj add_spec (conj sub_spec (conj neg_spec mul_spec)))). Qed.
+Print Assumptions C10_field_arithmetic.
 
-Theorem C10_add : forall a b, 0 <= a < q -> 0 <= b < q -> mldsa_rZq_add a b = (a + b) mod q.
-Proof. exact add_spec. Qed.
-Print Assumptions C10_add.
-
-Theorem C10_sub : forall a b, 0 <= a < q -> 0 <= b < q -> mldsa_rZq_sub a b = (a - b) mod q.
-Proof. exact sub_spec. Qed.
-Print Assumptions C10_sub.
-
-Theorem C10_neg : forall a, 0 <= a < q -> mldsa_rZq_neg a = (- a) mod q.
-Proof. exact neg_spec. Qed.
-Print Assumptions C10_neg.
-
-(* Barrett multiplication *)
-Theorem C10_mul : forall a b, 0 <= a < q -> 0 <= b < q -> mldsa_rZq_mul a b = (a * b) mod q.
-Proof. exact mul_spec. Qed.
-Print Assumptions C10_mul.
-
-(* Algorithm 35 *)
-Theorem C10_power2Round : forall a, 0 <= a < q ->
-  mldsa_rZq_power2Round a = ((a - cmod a 8192) / 8192, (cmod a 8192) mod q).
-Proof. exact power2Round_spec. Qed.
+(* Algorithm 35 and its inverse scaling *)
+Theorem C10_power2Round :
+  (forall a, 0 <= a < q -> mldsa_rZq_power2Round a = ((a - cmod a 8192) / 8192, (cmod a 8192) mod q)) /\
+  (forall a, 0 <= a < 1024 -> mldsa_rZq_scalePower2 a = a * 8192).
+Proof. exact (conj power2Round_spec scalePower2_spec). Qed.
 Print Assumptions C10_power2Round.
 
-Theorem C10_scalePower2 : forall a, 0 <= a < 1024 -> mldsa_rZq_scalePower2 a = a * 8192.
-Proof. exact scalePower2_spec. Qed.
-Print Assumptions C10_scalePower2.
-
-(* multiply-shift division is floor division by 2*gamma2; any other gamma2 panics *)
-Theorem C10_divBy2Gamma2 : forall a g, valid_gamma2 g -> 0 <= a < 2 ^ 32 ->
-  mldsa_divBy2Gamma2 a g = Some (a / (2 * g)).
-Proof. exact divBy2Gamma2_spec. Qed.
+(* the multiply-shift division is floor division by 2*gamma2 on all of uint32;
+   any other gamma2 panics *)
+Theorem C10_divBy2Gamma2 :
+  (forall a g, valid_gamma2 g -> 0 <= a < 2 ^ 32 -> mldsa_divBy2Gamma2 a g = Some (a / (2 * g))) /\
+  (forall a g, g <> 95232 -> g <> 261888 -> mldsa_divBy2Gamma2 a g = None).
+Proof. exact (conj divBy2Gamma2_spec divBy2Gamma2_other). Qed.
 Print Assumptions C10_divBy2Gamma2.
 
-Theorem C10_divBy2Gamma2_invalid : forall a g, g <> 95232 -> g <> 261888 -> mldsa_divBy2Gamma2 a g = None.
-Proof. exact divBy2Gamma2_other. Qed.
-Print Assumptions C10_divBy2Gamma2_invalid.
-
 (* Algorithms 36-38 *)
-Theorem C10_decompose : forall a g, valid_gamma2 g -> 0 <= a < q ->
-  mldsa_rZq_decompose a g = Some (decompose_spec a g).
-Proof. exact decompose_ok. Qed.
-Print Assumptions C10_decompose.
-
-Theorem C10_highBits : forall a g, valid_gamma2 g -> 0 <= a < q ->
-  mldsa_rZq_highBits a g = Some (fst (decompose_spec a g)).
-Proof. exact highBits_ok. Qed.
-Print Assumptions C10_highBits.
-
-Theorem C10_lowBits : forall a g, valid_gamma2 g -> 0 <= a < q ->
+Theorem C10_decompose_highBits_lowBits : forall a g, valid_gamma2 g -> 0 <= a < q ->
+  mldsa_rZq_decompose a g = Some (decompose_spec a g) /\
+  mldsa_rZq_highBits a g = Some (fst (decompose_spec a g)) /\
   mldsa_rZq_lowBits a g = Some (snd (decompose_spec a g)).
-Proof. exact lowBits_ok. Qed.
-Print Assumptions C10_lowBits.
+Proof. intros a g Hg Ha. exact (conj (decompose_ok a g Hg Ha) (conj (highBits_ok a g Hg Ha) (lowBits_ok a g Hg Ha))). Qed.
+Print Assumptions C10_decompose_highBits_lowBits.
 
 (* Algorithms 39-40 *)
-Theorem C10_makeHint : forall z g r, valid_gamma2 g -> 0 <= z < q -> 0 <= r < q ->
-  mldsa_rZq_makeHint z g r =
-  Some (if fst (decompose_spec r g) =? fst (decompose_spec ((r + z) mod q) g) then 0 else 1).
-Proof. exact makeHint_ok. Qed.
-Print Assumptions C10_makeHint.
+Theorem C10_makeHint_useHint :
+  (forall z g r, valid_gamma2 g -> 0 <= z < q -> 0 <= r < q ->
+     mldsa_rZq_makeHint z g r =
+     Some (if fst (decompose_spec r g) =? fst (decompose_spec ((r + z) mod q) g) then 0 else 1)) /\
+  (forall a g h, valid_gamma2 g -> 0 <= a < q -> mldsa_rZq_useHint a g h = Some (useHint_spec a g h)).
+Proof. exact (conj makeHint_ok useHint_ok). Qed.
+Print Assumptions C10_makeHint_useHint.
 
-Theorem C10_useHint : forall a g h, valid_gamma2 g -> 0 <= a < q ->
-  mldsa_rZq_useHint a g h = Some (useHint_spec a g h).
-Proof. exact useHint_ok. Qed.
-Print Assumptions C10_useHint.
+(* centred infinity norm *)
+Theorem C10_centered_norm :
+  (forall a, 0 <= a < q -> mldsa_rZq_centeredAbs a = Z.abs (cmod a q)) /\
+  (forall a b, 0 <= a < q -> 0 <= b < q ->
+     mldsa_rZq_centeredMax a b = if Z.abs (cmod b q) <=? Z.abs (cmod a q) then a else b).
+Proof. exact (conj centeredAbs_spec centeredMax_spec). Qed.
+Print Assumptions C10_centered_norm.
 
-(* centred norm *)
-Theorem C10_centeredAbs : forall a, 0 <= a < q -> mldsa_rZq_centeredAbs a = Z.abs (cmod a q).
-Proof. exact centeredAbs_spec. Qed.
-Print Assumptions C10_centeredAbs.
-
-Theorem C10_centeredMax : forall a b, 0 <= a < q -> 0 <= b < q ->
-  mldsa_rZq_centeredMax a b = if Z.abs (cmod b q) <=? Z.abs (cmod a q) then a else b.
-Proof. exact centeredMax_spec. Qed.
-Print Assumptions C10_centeredMax.
-
-(* the zetas table and the constants *)
-Theorem C10_zetas_table : mldsa_zetas = zetas_spec.
-Proof. exact zetas_table_ok. Qed.
-Print Assumptions C10_zetas_table.
-
-Theorem C10_zeta_primitive_512th_root :
-  powmod mldsa_zeta 256 mldsa_q = mldsa_q - 1 /\ powmod mldsa_zeta 512 mldsa_q = 1.
-Proof. exact zeta_primitive_512th_root. Qed.
-Print Assumptions C10_zeta_primitive_512th_root.
-
-Theorem C10_inv256 : (mldsa_inv256 * 256) mod mldsa_q = 1.
-Proof. exact inv256_ok. Qed.
-Print Assumptions C10_inv256.
-
-Theorem C10_zetas_inverse_pairs :
+(* the zetas table is 1753^brv8(k) mod q, 1753 is a primitive 512th root of
+   unity, inv256 is 256^-1, and the twiddle of each inverse butterfly is the
+   inverse of the forward one *)
+Theorem C10_zetas_and_constants :
+  mldsa_zetas = zetas_spec /\
+  (powmod mldsa_zeta 256 mldsa_q = mldsa_q - 1 /\ powmod mldsa_zeta 512 mldsa_q = 1) /\
+  (mldsa_inv256 * 256) mod mldsa_q = 1 /\
   forallb (fun m => ((nth m mldsa_zetas 0 * (mldsa_q - nth (layer_mirror m) mldsa_zetas 0)) mod mldsa_q =? 1))
           (seq 1 255) = true.
-Proof. exact zetas_inverse_pairs. Qed.
-Print Assumptions C10_zetas_inverse_pairs.
+Proof. exact (conj zetas_table_ok (conj zeta_primitive_512th_root (conj inv256_ok zetas_inverse_pairs))). Qed.
+Print Assumptions C10_zetas_and_constants.
 
 (* ------------------------------------------------------------------ *)
 (* 2. the kernels the executable model calls ARE the regenerated ones  *)
@@ -133,9 +100,9 @@ Theorem C10_model_kernels_are_generated_kernels :
   (forall a, k_centeredAbs a = mldsa_rZq_centeredAbs a) /\
   (forall a b, k_centeredMax a b = mldsa_rZq_centeredMax a b).
 Proof.
-  repeat split; intros;
-    auto using k_add_eq, k_sub_eq, k_neg_eq, k_mul_eq, k_power2Round_eq, k_scalePower2_eq, k_decompose_eq,
-      k_highBits_eq, k_lowBits_eq, k_makeHint_eq, k_useHint_eq, k_centeredAbs_eq, k_centeredMax_eq.
+  exact (conj k_add_eq (conj k_sub_eq (conj k_neg_eq (conj k_mul_eq (conj k_power2Round_eq (conj k_scalePower2_eq
+        (conj k_decompose_eq (conj k_highBits_eq (conj k_lowBits_eq (conj k_makeHint_eq (conj k_useHint_eq
+        (conj k_centeredAbs_eq k_centeredMax_eq)))))))))))).
 Qed.
 Print Assumptions C10_model_kernels_are_generated_kernels.
 
@@ -158,18 +125,27 @@ Example C10_useHint_makeHint_inhabited :
 Proof. exact ex_useHint_makeHint_inhabited. Qed.
 
 (* ------------------------------------------------------------------ *)
-(* 4. bit packing (Algorithms 16-19)                                   *)
+(* 4. NTT (Algorithms 41/42): the inverse transform inverts the         *)
+(*    transform on every polynomial over Z_q                            *)
+(* ------------------------------------------------------------------ *)
+Theorem C10_intt_ntt : forall p, length p = 256%nat -> Forall (fun c => 0 <= c < q) p ->
+  intt (ntt p) = p.
+Proof. exact intt_ntt. Qed.
+Print Assumptions C10_intt_ntt.
+
+(* ------------------------------------------------------------------ *)
+(* 5. bit packing (Algorithms 16-19)                                   *)
 (* ------------------------------------------------------------------ *)
 Local Open Scope nat_scope.
 
-Theorem C10_simpleBitPack_length : forall bits p, length p = degree ->
-  length (simpleBitPack bits p) = 32 * bits.
-Proof. exact simpleBitPack_length. Qed.
-Print Assumptions C10_simpleBitPack_length.
-
-Theorem C10_simpleBitPack_bytes : forall bits p, length p = degree -> wfb (simpleBitPack bits p).
-Proof. exact simpleBitPack_wf. Qed.
-Print Assumptions C10_simpleBitPack_bytes.
+Theorem C10_pack_lengths : forall bits p, length p = degree ->
+  length (simpleBitPack bits p) = 32 * bits /\ wfb (simpleBitPack bits p) /\
+  forall a, length (bitPack a bits p) = 32 * bits.
+Proof.
+  intros bits p Hp.
+  exact (conj (simpleBitPack_length bits p Hp) (conj (simpleBitPack_wf bits p Hp) (fun a => bitPack_length a bits p Hp))).
+Qed.
+Print Assumptions C10_pack_lengths.
 
 Theorem C10_simpleBitUnpack_simpleBitPack : forall bits p,
   0 < bits -> length p = degree ->
@@ -177,10 +153,6 @@ Theorem C10_simpleBitUnpack_simpleBitPack : forall bits p,
   simpleBitUnpack bits (simpleBitPack bits p) = p.
 Proof. exact simpleBitUnpack_simpleBitPack. Qed.
 Print Assumptions C10_simpleBitUnpack_simpleBitPack.
-
-Theorem C10_bitPack_length : forall a bits p, length p = degree -> length (bitPack a bits p) = 32 * bits.
-Proof. exact bitPack_length. Qed.
-Print Assumptions C10_bitPack_length.
 
 (* coefficients c in Z_q with a - c (mod q) < 2^bits: for (a, bits) =
    (eta, etaBits), (2^12, 13), (gamma1, 1 + log2 gamma1) these are the ranges
@@ -199,12 +171,12 @@ Example C10_bitUnpack_bitPack_inhabited :
 Proof. exact ex_bitUnpack_bitPack_inhabited. Qed.
 
 (* ------------------------------------------------------------------ *)
-(* 5. hint packing (Algorithms 20/21): round trip and strictness        *)
+(* 6. hint packing (Algorithms 20/21): round trip and strictness        *)
 (* ------------------------------------------------------------------ *)
 (* HintBitUnpack accepts a byte string iff it is THE canonical encoding of a
-   0/1 vector of weight <= omega: non-increasing indices, bad cumulative
-   counts and non-zero padding are all rejected, and no hint vector has two
-   accepted encodings. *)
+   0/1 vector of weight <= omega (so non-increasing indices, bad cumulative
+   counts and non-zero padding are all rejected, and HintBitPack output is
+   always accepted); no hint vector has two accepted encodings. *)
 Theorem C10_hintBitUnpack_iff : forall omega k enc h,
   omega <= 255 -> wfb enc ->
   (hintBitUnpack omega k enc = Ok h <->
@@ -212,13 +184,6 @@ Theorem C10_hintBitUnpack_iff : forall omega k enc h,
    Forall (fun p => binary p /\ length p = degree) h).
 Proof. exact hintBitUnpack_iff. Qed.
 Print Assumptions C10_hintBitUnpack_iff.
-
-Theorem C10_hintBitUnpack_hintBitPack : forall omega k h,
-  omega <= 255 -> length h = k ->
-  Forall (fun p => binary p /\ length p = degree) h -> weight h <= omega ->
-  hintBitUnpack omega k (hintBitPack omega h) = Ok h.
-Proof. exact hintBitUnpack_hintBitPack. Qed.
-Print Assumptions C10_hintBitUnpack_hintBitPack.
 
 Theorem C10_hintBitUnpack_unique_encoding : forall omega k e1 e2 h,
   wfb e1 -> wfb e2 -> hintBitUnpack omega k e1 = Ok h -> hintBitUnpack omega k e2 = Ok h -> e1 = e2.
@@ -236,46 +201,36 @@ Example C10_hint_inhabited :
 Proof. exact ex_hint_inhabited. Qed.
 
 (* ------------------------------------------------------------------ *)
-(* 6. key and signature encodings                                       *)
+(* 7. key and signature encodings                                       *)
 (* ------------------------------------------------------------------ *)
-Theorem C10_table1_parameter_sets :
-  MLDSA44 = mkParams 39 128 17 95232 4 4 2 80 3 6 /\
-  MLDSA65 = mkParams 49 192 19 261888 6 5 4 55 4 4 /\
-  MLDSA87 = mkParams 60 256 19 261888 8 7 2 75 3 4.
-Proof. exact table1_params. Qed.
-Print Assumptions C10_table1_parameter_sets.
+(* FIPS 204 Tables 1 and 2 *)
+Theorem C10_parameter_sets_and_lengths :
+  (MLDSA44 = mkParams 39 128 17 95232 4 4 2 80 3 6 /\
+   MLDSA65 = mkParams 49 192 19 261888 6 5 4 55 4 4 /\
+   MLDSA87 = mkParams 60 256 19 261888 8 7 2 75 3 4) /\
+  ((publicKeyLength MLDSA44, secretKeyLength MLDSA44, signatureLength MLDSA44) = (1312, 2560, 2420) /\
+   (publicKeyLength MLDSA65, secretKeyLength MLDSA65, signatureLength MLDSA65) = (1952, 4032, 3309) /\
+   (publicKeyLength MLDSA87, secretKeyLength MLDSA87, signatureLength MLDSA87) = (2592, 4896, 4627)).
+Proof. exact (conj table1_params table2_lengths). Qed.
+Print Assumptions C10_parameter_sets_and_lengths.
 
-Theorem C10_table2_lengths :
-  (publicKeyLength MLDSA44, secretKeyLength MLDSA44, signatureLength MLDSA44) = (1312, 2560, 2420) /\
-  (publicKeyLength MLDSA65, secretKeyLength MLDSA65, signatureLength MLDSA65) = (1952, 4032, 3309) /\
-  (publicKeyLength MLDSA87, secretKeyLength MLDSA87, signatureLength MLDSA87) = (2592, 4896, 4627).
-Proof. exact table2_lengths. Qed.
-Print Assumptions C10_table2_lengths.
-
-Theorem C10_pkEncode_length : forall P pk, polys (p_k P) (pk_t1 pk) ->
-  length (pkEncode pk) = publicKeyLength P.
-Proof. exact pkEncode_length. Qed.
-Print Assumptions C10_pkEncode_length.
-
-Theorem C10_skEncode_length : forall P sk,
-  polys (p_l P) (sk_s1 sk) -> polys (p_k P) (sk_s2 sk) -> polys (p_k P) (sk_t0 sk) ->
-  length (skEncode P sk) = secretKeyLength P.
-Proof. exact skEncode_length. Qed.
-Print Assumptions C10_skEncode_length.
-
-Theorem C10_sigEncode_length : forall P c z h,
-  polys (p_l P) z -> length h = p_k P -> weight h <= p_omega P ->
-  length (sigEncode P c z h) = signatureLength P.
-Proof. exact sigEncode_length. Qed.
-Print Assumptions C10_sigEncode_length.
-
-(* decoders accept only the exact length *)
-Theorem C10_decoders_check_length :
-  (forall P sigma r, sigDecode P sigma = Some r -> length sigma = signatureLength P) /\
-  (forall shake256 P enc pk, pkDecode shake256 P enc = Some pk -> length enc = publicKeyLength P) /\
-  (forall P enc sk, skDecode P enc = Some sk -> length enc = secretKeyLength P).
-Proof. repeat split; [exact sigDecode_length | exact pkDecode_length | exact skDecode_length]. Qed.
-Print Assumptions C10_decoders_check_length.
+(* encoders produce exactly the lengths of the parameter set, for any
+   parameter record; decoders accept only that length *)
+Theorem C10_encoded_lengths : forall P,
+  (forall pk, polys (p_k P) (pk_t1 pk) -> length (pkEncode pk) = publicKeyLength P) /\
+  (forall sk, polys (p_l P) (sk_s1 sk) -> polys (p_k P) (sk_s2 sk) -> polys (p_k P) (sk_t0 sk) ->
+     length (skEncode P sk) = secretKeyLength P) /\
+  (forall c z h, polys (p_l P) z -> length h = p_k P -> weight h <= p_omega P ->
+     length (sigEncode P c z h) = signatureLength P) /\
+  (forall sigma r, sigDecode P sigma = Some r -> length sigma = signatureLength P) /\
+  (forall shake256 enc pk, pkDecode shake256 P enc = Some pk -> length enc = publicKeyLength P) /\
+  (forall enc sk, skDecode P enc = Some sk -> length enc = secretKeyLength P).
+Proof.
+  intros P.
+  exact (conj (pkEncode_length P) (conj (skEncode_length P) (conj (sigEncode_length P)
+        (conj (sigDecode_length P) (conj (fun s => pkDecode_length s P) (skDecode_length P)))))).
+Qed.
+Print Assumptions C10_encoded_lengths.
 
 (* SigDecode inverts SigEncode *)
 Theorem C10_sigDecode_sigEncode : forall P c z h,
